@@ -110,7 +110,11 @@ def run(chk):
     for name in ("Heff0", "Heff1", "Heff2", "measure"):
         f = es.methods[name]
         t = A.text(f.node)
-        ok = f"env.{name}(" in t and "self.envs" in t
+        # the member's method of the same name is called on the variable of a loop / comprehension over self.envs (any name)
+        loopvars = {x.id for n_ in ast.walk(f.node) if isinstance(n_, (ast.For, ast.comprehension)) and "self.envs" in A.text(n_.iter)
+                    for x in ast.walk(n_.target) if isinstance(x, ast.Name)}
+        ok = "self.envs" in t and any(isinstance(c_, ast.Call) and A.callee_attr(c_) == name and isinstance(c_.func.value, ast.Name) and c_.func.value.id in loopvars
+                                      for c_ in ast.walk(f.node))
         chk.verdict("FF2", f, f"Env_sum.{name} sums its members", True if ok else False, f"Env_sum.{name}() does not combine all member environments")
     # ---- FF7 boundary charges of the <bra|op|ket> environment
     e6.run_CK1(chk, "FF7", [ENV, "yastn.tn.mps._measure", COMP, "yastn.tn.mps._initialize", OBC, PAR], floor_sites=2)
